@@ -4,7 +4,7 @@ overshot field (cursor = its value at the head of the iteration that read the na
 from engine import build, irload, runner
 from engine.contracts import API, LibHooks, Layout
 from engine.absval import Int, Ptr, Zero
-from engine.common import need
+from engine.common import need, AnalysisBroken
 from engine.lin import Aff
 
 ENTRIES = ['binson_parser_field_with_length']
@@ -120,7 +120,14 @@ def run(rep, tier):
             rep.coverage.setdefault('cmp_outcomes', {})[tag] = cmp_spec(rep, mod, 'C07')
             rep.coverage.setdefault('ensure_exits', {})[tag] = ensure_clause(rep, mod)
             if target is None:
-                lookup_clause(rep, mod, tier)
+                try:
+                    lookup_clause(rep, mod, tier)
+                except AnalysisBroken as e:
+                    # the machine-based clause cannot be evaluated on this tree; violations of the other clauses still stand
+                    if not rep.violations:
+                        raise
+                    rep.assumptions.append('lookup clause not evaluated on this tree: %s' % e)
+                    print('NOTE C07 lookup clause not evaluated: %s' % e)
     rep.coverage.update({
         'rule': 'on every abstract path through the overshoot branch: cursor after the rewind == cursor at the head of the iteration that read the name; '
                 'level flags == EXPECTING_FIELD; current_name not stored in that iteration; the step returns false',
